@@ -691,6 +691,115 @@ theorem C05.leaf_typed (cj : K → K) (I : K) (l : Leaf K)
 
 end
 
+/-! ### adjoint of the adjoint -/
+
+section
+variable {K : Type} [Field K] [DecidableEq K]
+
+/-- trees built from leaves, sums, compositions, left scalar multiples and block operators -/
+def OdlModel.Adjoint.Impl.simpleShape : Impl K → Prop
+  | .leaf _ => True
+  | .sum a b => a.simpleShape ∧ b.simpleShape
+  | .comp a b => a.simpleShape ∧ b.simpleShape
+  | .lscal a _ => a.simpleShape
+  | .pnil _ _ _ => True
+  | .pcons _ _ a rest => a.simpleShape ∧ rest.simpleShape
+  | _ => False
+
+/-- every leaf's adjoint has an adjoint acting like the leaf -/
+def OdlModel.Adjoint.Impl.leavesAA (cj : K → K) (I : K) : Impl K → Prop
+  | .leaf l => ∀ t', l.adj cj I = some t' →
+      ∃ t'', t'.adj cj I = some t'' ∧ t''.run cj I = l.run cj I
+  | .sum a b => a.leavesAA cj I ∧ b.leavesAA cj I
+  | .comp a b => a.leavesAA cj I ∧ b.leavesAA cj I
+  | .lscal a _ => a.leavesAA cj I
+  | .rscal a _ => a.leavesAA cj I
+  | .lvec a _ => a.leavesAA cj I
+  | .rvec a _ => a.leavesAA cj I
+  | .flvec f _ _ _ => f.leavesAA cj I
+  | .pnil _ _ _ => True
+  | .pcons _ _ a rest => a.leavesAA cj I ∧ rest.leavesAA cj I
+
+/-- `adj_adj` (partial): for trees built from leaves, OperatorSum, OperatorComp,
+OperatorLeftScalarMult and block operators, `A.adjoint.adjoint` exists and ACTS LIKE `A`
+(equal as functions, unbounded depth) whenever this holds for the leaves.
+Missing for the full statement: Right scalar / Left / Right vector multiples and
+FunctionalLeftVectorMult (their double adjoint is a different expression class whose equality
+with `A` needs linearity of the operand, resp. the typing of the intermediate adjoint); these
+are covered by the matrix comparison of `A.adjoint.adjoint` with `A` in the harness. -/
+theorem C05.adj_adj_partial (cj : K →+* K) (hcj : ∀ a, cj (cj a) = a) (I : K) (t : Impl K) :
+    ∀ t', t.simpleShape → t.leavesAA cj I → t.adj cj I = some t' →
+      ∃ t'', t'.adj cj I = some t'' ∧ t''.run cj I = t.run cj I := by
+  induction t with
+  | leaf l => intro t' _ hl ha; exact hl t' ha
+  | sum a b iha ihb =>
+    intro t' hs hl ha
+    cases ea : a.adj cj I with
+    | none => simp [Impl.adj, ea] at ha
+    | some a' =>
+      cases eb : b.adj cj I with
+      | none => simp [Impl.adj, ea, eb] at ha
+      | some b' =>
+        simp [Impl.adj, ea, eb] at ha; subst ha
+        obtain ⟨a'', ha2, ra⟩ := iha a' hs.1 hl.1 ea
+        obtain ⟨b'', hb2, rb⟩ := ihb b' hs.2 hl.2 eb
+        exact ⟨.sum a'' b'', by simp [Impl.adj, ha2, hb2], by simp [Impl.run, ra, rb]⟩
+  | comp a b iha ihb =>
+    intro t' hs hl ha
+    cases ea : a.adj cj I with
+    | none => simp [Impl.adj, ea] at ha
+    | some a' =>
+      cases eb : b.adj cj I with
+      | none => simp [Impl.adj, ea, eb] at ha
+      | some b' =>
+        simp [Impl.adj, ea, eb] at ha; subst ha
+        obtain ⟨a'', ha2, ra⟩ := iha a' hs.1 hl.1 ea
+        obtain ⟨b'', hb2, rb⟩ := ihb b' hs.2 hl.2 eb
+        exact ⟨.comp a'' b'', by simp [Impl.adj, ha2, hb2], by simp [Impl.run, ra, rb]⟩
+  | lscal a s iha =>
+    intro t' hs hl ha
+    cases ea : a.adj cj I with
+    | none => simp [Impl.adj, ea] at ha
+    | some a' =>
+      simp [Impl.adj, ea] at ha; subst ha
+      obtain ⟨a'', ha2, ra⟩ := iha a' hs hl ea
+      exact ⟨.lscal a'' (cj (cj s)), by simp [Impl.adj, ha2], by simp [Impl.run, ra, hcj]⟩
+  | rscal a s _ => intro t' hs; exact absurd hs (by simp [Impl.simpleShape])
+  | lvec a v _ => intro t' hs; exact absurd hs (by simp [Impl.simpleShape])
+  | rvec a v _ => intro t' hs; exact absurd hs (by simp [Impl.simpleShape])
+  | flvec f V F v _ => intro t' hs; exact absurd hs (by simp [Impl.simpleShape])
+  | pnil k d r =>
+    intro t' _ _ ha
+    simp [Impl.adj] at ha; subst ha
+    exact ⟨.pnil k.adj.adj d r, by simp [Impl.adj], by simp [Impl.run]⟩
+  | pcons r c a rest iha ihr =>
+    intro t' hs hl ha
+    cases ea : a.adj cj I with
+    | none => simp [Impl.adj, ea] at ha
+    | some a' =>
+      cases er : rest.adj cj I with
+      | none => simp [Impl.adj, ea, er] at ha
+      | some rest' =>
+        simp [Impl.adj, ea, er] at ha; subst ha
+        obtain ⟨a'', ha2, ra⟩ := iha a' hs.1 hl.1 ea
+        obtain ⟨r'', hr2, rr⟩ := ihr rest' hs.2 hl.2 er
+        exact ⟨.pcons r c a'' r'', by simp [Impl.adj, ha2, hr2], by simp [Impl.run, ra, rr]⟩
+
+/-- MatrixOperator: the adjoint of the adjoint is the original matrix (`conj (conj M) = M`),
+and likewise Zero, Sampling ↔ WeightedSumSampling, PointwiseInner ↔ PointwiseInnerAdjoint
+return to the same leaf. -/
+theorem C05.leaf_adj_adj (cj : K →+* K) (hcj : ∀ a, cj (cj a) = a) (I : K) (l : Leaf K)
+    (h : match l with
+      | .matrix _ _ _ | .zero _ _ | .sampling _ _ _ _ _ | .wsum _ _ _ _ _
+      | .pwInner _ _ _ _ _ | .pwInnerAdj _ _ _ _ _ | .proj _ _ _ | .projAdj _ _ _ => True
+      | _ => False) :
+    (Impl.leaf l).leavesAA cj I := by
+  intro t' ha
+  cases l <;> simp at h <;> simp [Leaf.adj] at ha <;> subst ha <;>
+    simp [Impl.adj, Leaf.adj, Impl.run, Leaf.run, hcj]
+
+end
+
 /-! ### sharp negative results (the recorded findings, on the model) and non-vacuity -/
 
 section
